@@ -142,7 +142,7 @@ func main() {
 	repo, out := os.Args[1], os.Args[2]
 	var b strings.Builder
 	b.WriteString("(* Generated from " + repo + " by /verif/harness/cmd/skeleton — do not edit. *)\n")
-	b.WriteString("From Coq Require Import List NArith ZArith Bool.\nImport ListNotations.\n")
+	b.WriteString("From Coq Require Import List NArith ZArith Bool String.\nImport ListNotations.\n")
 	b.WriteString("From Pike Require Import Model.Dispatcher.\n\n")
 	genDispatcher(repo, &b)
 	for _, g := range extraGens {
